@@ -121,26 +121,41 @@ Definition obj := list (text * json).
 Inductive cval :=
 | CRedacted (d : text)                 (* placeholder carrying only the digest *)
 | CLeaf (s : text)                     (* coloured str(value) *)
-| CObj (kvs : list (text * cval)).
+| CObj (kvs : list (text * cval))
+| CArr (items : list cval)             (* array holding objects/arrays: _clean_items *)
+| CItem (r : text).                    (* repr() of a scalar item of such an array, unchanged *)
+
+Definition is_container (j : json) : bool :=
+  match j with JObj _ | JArr _ => true | _ => false end.
 
 Section Clean.
 Variable sens : text -> bool.          (* key test *)
 Variable str_of : json -> text.        (* Python str(value) *)
+Variable repr_of : json -> text.       (* Python repr(value), for scalar items of cleaned arrays *)
 Variable digest : text -> text.        (* hash_it *)
 Variable colq : text -> text.          (* QUOTES_OR_BACKTICKS_RE.sub(color_value, .) *)
 
-(* clean_record lines 126-132: the key test comes first, then dict, then everything else *)
-Fixpoint clean_val (j : json) : cval :=
+(* clean_record: the key test comes first, then dict, then a list holding a dict or list
+   (_clean_items: dicts cleaned, lists recursed into unconditionally, other items kept),
+   then everything else.  [in_arr] = the value is an item of a list being cleaned. *)
+Fixpoint clean_at (in_arr : bool) (j : json) : cval :=
   match j with
   | JObj kvs =>
       CObj ((fix go (l : list (text * json)) : list (text * cval) :=
                match l with
                | [] => []
                | (k, v) :: r =>
-                   (k, if sens k then CRedacted (digest (str_of v)) else clean_val v) :: go r
+                   (k, if sens k then CRedacted (digest (str_of v)) else clean_at false v) :: go r
                end) kvs)
-  | _ => CLeaf (colq (str_of j))
+  | JArr l =>
+      if in_arr || existsb is_container l
+      then CArr ((fix go (l : list json) : list cval :=
+                    match l with [] => [] | x :: r => clean_at true x :: go r end) l)
+      else CLeaf (colq (str_of j))
+  | _ => if in_arr then CItem (repr_of j) else CLeaf (colq (str_of j))
   end.
+
+Definition clean_val (j : json) : cval := clean_at false j.
 
 Definition clean_member (kv : text * json) : text * cval :=
   (fst kv, if sens (fst kv) then CRedacted (digest (str_of (snd kv))) else clean_val (snd kv)).
@@ -148,13 +163,14 @@ Definition clean_member (kv : text * json) : text * cval :=
 Definition clean_obj (kvs : obj) : list (text * cval) := map clean_member kvs.
 End Clean.
 
-(* paths: the i-th member of an object at each step *)
+(* paths: the i-th member of an object / the i-th item of an array at each step *)
 Fixpoint jget (p : list nat) (j : json) : option json :=
   match p with
   | [] => Some j
   | i :: p' =>
       match j with
       | JObj kvs => match nth_error kvs i with Some (_, v) => jget p' v | None => None end
+      | JArr l => match nth_error l i with Some x => jget p' x | None => None end
       | _ => None
       end
   end.
@@ -165,18 +181,36 @@ Fixpoint cget (p : list nat) (c : cval) : option cval :=
   | i :: p' =>
       match c with
       | CObj kvs => match nth_error kvs i with Some (_, v) => cget p' v | None => None end
+      | CArr l => match nth_error l i with Some x => cget p' x | None => None end
       | _ => None
       end
   end.
 
-(* the keys met along a path *)
+(* the keys met along a path (array steps carry no key) *)
 Fixpoint jkeys (p : list nat) (j : json) : list text :=
   match p with
   | [] => []
   | i :: p' =>
       match j with
       | JObj kvs => match nth_error kvs i with Some (k, v) => k :: jkeys p' v | None => [] end
+      | JArr l => match nth_error l i with Some x => jkeys p' x | None => [] end
       | _ => []
+      end
+  end.
+
+(* Some m' = every array entered along the path is one that is cleaned item by item (it is
+   itself an item of a cleaned array, or holds an object/array); m' = is the end of the
+   path an array item.  None = the path enters an array of scalars, which is one leaf. *)
+Fixpoint walk (m : bool) (p : list nat) (j : json) : option bool :=
+  match p with
+  | [] => Some m
+  | i :: p' =>
+      match j with
+      | JObj kvs => match nth_error kvs i with Some (_, v) => walk false p' v | None => None end
+      | JArr l => if m || existsb is_container l
+                  then match nth_error l i with Some x => walk true p' x | None => None end
+                  else None
+      | _ => None
       end
   end.
 
@@ -194,6 +228,7 @@ Fixpoint jset (p : list nat) (v' : json) (j : json) : json :=
   | i :: p' =>
       match j with
       | JObj kvs => JObj (replace_nth i (fun kv => (fst kv, jset p' v' (snd kv))) kvs)
+      | JArr l => JArr (replace_nth i (jset p' v') l)
       | _ => j
       end
   end.
@@ -326,6 +361,10 @@ Fixpoint render_val (cl : colours) (c : cval) : text :=
                     | [] => []
                     | (k, v) :: r => (cKEY cl ++ k ++ cOFF cl, cVALUE cl ++ render_val cl v ++ cOFF cl) :: go r
                     end) kvs)
+  | CArr items =>                        (* str(list): items by repr *)
+      T "[" ++ join (T ", ") ((fix go (l : list cval) : list text :=
+                                 match l with [] => [] | x :: r => render_val cl x :: go r end) items) ++ T "]"
+  | CItem r => r
   end.
 
 Definition render_obj (cl : colours) (kvs : list (text * cval)) : list (text * text) :=
@@ -334,7 +373,7 @@ Definition render_obj (cl : colours) (kvs : list (text * cval)) : list (text * t
 (* LogFormatter.clean_record(dirty, colorize) as the list of items of the returned dict *)
 Definition clean_record_model (digest : text -> text) (colorize : bool) (o : obj) : list (text * text) :=
   let cl := colours_of colorize in
-  render_obj cl (clean_obj sensitive_code py_str digest (colour_quotes cl) o).
+  render_obj cl (clean_obj sensitive_code py_str py_repr digest (colour_quotes cl) o).
 
 (* ------------------------------------------------------------------ *)
 (* sanitize_record and format.                                         *)
@@ -395,7 +434,7 @@ Definition sanitize_core (sens : text -> bool) (parse : text -> option obj) (dig
   | Some (i, o) =>
       join [bar] (firstn i parts ++
                   [T " " ++ json_dumps_flat (render_obj colours_on
-                              (clean_obj sens py_str digest (colour_quotes colours_on) o))])
+                              (clean_obj sens py_str py_repr digest (colour_quotes colours_on) o))])
   | None => join [bar] (removelast parts ++ [fallback_part (last parts [])])
   end.
 
